@@ -250,7 +250,7 @@ var summaryCrypto = map[string]Summary{
 		[][]int{{0}, {0}},
 	},
 	// func Read(b []byte) (n int, err error)
-	"crypto/Rand.Read": {
+	"crypto/rand.Read": {
 		[][]int{{0}},
 		[][]int{{0}},
 	},
@@ -350,7 +350,7 @@ var summaryFlag = map[string]Summary{
 		[][]int{{}, {0}, {}},
 	},
 	//func DurationVar(p *time.Duration, name string, value time.Duration, usage string)
-	"flat.DurationVar": {
+	"flag.DurationVar": {
 		[][]int{{0}, {1}, {0, 2}, {3}},
 		[][]int{{0}, {}, {0}, {}},
 	},
@@ -375,7 +375,7 @@ var summaryFlag = map[string]Summary{
 		[][]int{{}, {0}, {}},
 	},
 	//func Int64Var(p *int64, name string, value int64, usage string)
-	"flat.Int64Var": {
+	"flag.Int64Var": {
 		[][]int{{0}, {1}, {0, 2}, {3}},
 		[][]int{{0}, {}, {0}, {}},
 	},
@@ -854,7 +854,7 @@ var summaryReflect = map[string]Summary{
 		[][]int{{}, {}},
 	},
 	// func (v Value) SetMapIndex(key, elem Value)
-	"(reflect.Value).SetMapIndex(key, elem Value)": {
+	"(reflect.Value).SetMapIndex": {
 		[][]int{{0}, {0, 1}, {0, 2}},
 		[][]int{{}, {}, {}},
 	},
@@ -917,7 +917,7 @@ var summaryRuntime = map[string]Summary{
 	"runtime.NumCPU": NoDataFlowPropagation,
 	"runtime.Caller": NoDataFlowPropagation,
 	// func runtime.FuncForPC(pc uintptr) *runtime.Func
-	"runtime.FuncForPc":   SingleVarArgPropagation,
+	"runtime.FuncForPC":   SingleVarArgPropagation,
 	"runtime/debug.init":  NoDataFlowPropagation,
 	"runtime/debug.Stack": NoDataFlowPropagation,
 	// func (*runtime.Func).Name() string
@@ -1096,12 +1096,12 @@ var summarySync = map[string]Summary{
 		[][]int{{0}},
 	},
 	// func StoreInt32(addr *int32, val int32)
-	" sync/atomic.StoreInt32": {
+	"sync/atomic.StoreInt32": {
 		[][]int{{0}, {0, 1}},
 		[][]int{{}},
 	},
 	// func StoreInt64(addr *int64, val int64)
-	" sync/atomic.StoreInt64": {
+	"sync/atomic.StoreInt64": {
 		[][]int{{0}, {0, 1}},
 		[][]int{{}},
 	},
@@ -1111,7 +1111,7 @@ var summarySync = map[string]Summary{
 		[][]int{{}},
 	},
 	// func StoreUint64(addr *uint64, val uint64)
-	" sync/atomic.StoreUint64": {
+	"sync/atomic.StoreUint64": {
 		[][]int{{0}, {0, 1}},
 		[][]int{{}},
 	},
